@@ -161,6 +161,22 @@ func c15Execute(c *c15Case, base string, rec *vh.Recorder) (fail *vh.Failure, la
 				}
 				return vh.Failf(sig, "output message %d.%d %s: %q", m.Id.Id, m.Id.Reply, p, m.Data), keys2(lab), true
 			}
+			// ... and as its recipient gets it: GET messages encodes the line as a JSON string, and the
+			// encoder replaces every byte that is not part of a valid UTF-8 sequence by U+FFFD (three
+			// bytes). The streams read below are the observer's and the target's; replies that go to
+			// the poster alone (MODE on the own nickname, numerics) are only seen here (seed C15n).
+			if enc, err := json.Marshal(m.Data); err == nil {
+				var served string
+				if json.Unmarshal(enc, &served) == nil && served != m.Data {
+					lab["c15:line-changed-by-transport"] = true
+					if p := lineProblem(served); p != "" {
+						sig := "malformed-line-after-transport:" + problemClass(p)
+						if !rec.Known(sig) {
+							return vh.Failf(sig, "output message %d.%d, as JSON transport serves it, %s: stored %q", m.Id.Id, m.Id.Reply, p, m.Data), keys2(lab), true
+						}
+					}
+				}
+			}
 		}
 	}
 	// observation point 2: what GET .../messages serves (after JSON transport)
